@@ -7,3 +7,4 @@ import GontainerModel.Props.C07
 #print axioms GM.C07.cycles_accept_iff
 #print axioms GM.C07.reported_cycle_is_cycle
 #print axioms GM.C07.edges_exact
+#print axioms GM.C07.param_eval_terminates_partial
